@@ -101,3 +101,11 @@ CORPUS += [
         "                self.tree_model.postorder,\n                mats,\n                self.subst_model.frequencies,\n                probs,\n            )\n\n            if torch.any(torch.isinf(log_p)):", mode='text',
         expect=[('C10.R', 'evolution.tree_likelihood::TreeLikelihoodModel::kernels-receive-the-same-freqs')]),
 ]
+CORPUS += [
+    Mut('c10-slab-squeezed-under-an-isinstance-guard', 'torchtree/distributions/scale_mixture.py', '', "        if self.slab is not None:\n            local_scale = (\n                self.slab.tensor**2\n                * self.local_scale.tensor**2\n",
+        "        if self.slab is not None:\n            if isinstance(self.slab, AbstractParameter):\n                slab2 = self.slab.tensor.squeeze(-1) ** 2\n            else:\n                slab2 = self.slab**2\n            local_scale = (\n                slab2\n                * self.local_scale.tensor**2\n",
+        mode='text', expect=[('C10.A', 'distributions.scale_mixture::ScaleMixtureNormal._call::')]),
+    Mut('c10-benign-slab-number-or-parameter', 'torchtree/distributions/scale_mixture.py', '', "        if self.slab is not None:\n            local_scale = (\n                self.slab.tensor**2\n                * self.local_scale.tensor**2\n",
+        "        if self.slab is not None:\n            if isinstance(self.slab, AbstractParameter):\n                slab2 = self.slab.tensor**2\n            else:\n                slab2 = self.slab**2\n            local_scale = (\n                slab2\n                * self.local_scale.tensor**2\n",
+        mode='text', benign=True),
+]
